@@ -145,6 +145,26 @@ def oid_of(i, arcs):
     return ".".join(["1", "3", "6", "1", "4", "1"] + [str(100000 + (i * 131 + k) % 50000) for k in range(arcs - 6)])
 
 
+def after_reply_session(rec, cfg, M, reqs, cap):
+    s = rawdrv.RawSession(rec, cfg, maxbuf=cap)
+    agent = ag.Agent(engine=cfg.engine)
+    for j, (n, arcs) in enumerate(reqs):
+        oids = [oid_of(i, arcs) for i in range(n)]
+        op = "get" if n == 1 else "get_many"
+        w, exc = s.send(op, oids)
+        if w is None or j % 2:
+            continue
+        req = ag.Request(cfg, w)
+        if req.broken:
+            continue
+        if j % 4 == 0:
+            s.inject(agent.reply(cfg, req, [(bytes(nm), ("int", 1)) for nm in req.names[:2]], max_size=M))
+        else:
+            s.inject(agent.report(cfg, req, max_size=M))
+        s.recv(op)
+    s.close()
+
+
 def size_sweep(chk, thorough, rng, cap):
     std = scripts.std_cfgs()
     e = ag.Agent().engine
@@ -206,26 +226,11 @@ def size_sweep(chk, thorough, rng, cap):
     for mi, M in enumerate((484, 1472, 1500, 2048, 4079, 65507, 2 ** 31 - 1)):
         for base in ("v3-noauth", "v3-md5", "v3-sha1-aes"):
             cfg = std[base]
-            a = rec.n
-            s = rawdrv.RawSession(rec, cfg, maxbuf=cap)
-            agent = ag.Agent(engine=cfg.engine)
             reqs = [(1, 9), (20, 9), (60, 9), (110, 9), big[(mi * 5) % len(big)], (150, 9), big[(mi * 5 + 9) % len(big)], (3, 9)]
-            for j, (n, arcs) in enumerate(reqs):
-                oids = [oid_of(i, arcs) for i in range(n)]
-                op = "get" if n == 1 else "get_many"
-                w, exc = s.send(op, oids)
+            a = rec.n
+            after_reply_session(rec, cfg, M, reqs, cap)
+            for (n, arcs) in reqs:
                 chk.case(("size-after-reply", base, M, n, arcs))
-                if w is None or j % 2:
-                    continue
-                req = ag.Request(cfg, w)
-                if req.broken:
-                    continue
-                if j % 4 == 0:
-                    s.inject(agent.reply(cfg, req, [(bytes(nm), ("int", 1)) for nm in req.names[:2]], max_size=M))
-                else:
-                    s.inject(agent.report(cfg, req, max_size=M))
-                s.recv(op)
-            s.close()
             runs.append((a, rec.n, dict(cfg=base + "-after-msgMaxSize-%d" % M, L=len(cfg.user), reqs=reqs)))
     rec.close()
     nref = sum(1 for ev in rec.events if ev["ev"] == "Send" and ev.get("exc"))
@@ -354,6 +359,16 @@ def replay(path):
         std = scripts.std_cfgs()
         e = ag.Agent().engine
         L = info["L"]
+        if "-after-msgMaxSize-" in info["cfg"]:
+            base, M = info["cfg"].split("-after-msgMaxSize-")
+            rec = trace.Recorder("c17-replay")
+            after_reply_session(rec, std[base], int(M), [tuple(x) for x in info["reqs"]], cap)
+            v = trace.validate("TraceSession.tla", "TraceSession.cfg", rec.close())
+            if v["accepted"] and not v["fails"]:
+                print("replay: accepted")
+                return 0
+            print("VIOLATION property=C17 replay=%s" % path)
+            return 1
         if info["cfg"].startswith("v3"):
             c = std[info["cfg"]]
             cfg = rawdrv.Cfg("v3", user="u" * L, engine=e, auth=c.auth, akt=c.akt, akm=c.akm, priv=c.priv, pkt=c.pkt, pkm=c.pkm)
